@@ -35,7 +35,8 @@ def parity(x):
 
 def parity8(x):
     y = x ^ (x >> 4)
-    y = cst(0x6996, 16) >> (y[0:4])
+    # PF is set when the low byte has an even number of bits set:
+    y = cst(0x9669, 16) >> (y[0:4])
     p = y.bit(0)
     return p
 
